@@ -880,6 +880,51 @@ def fam_extra(params, tier, acc):
         except Exception as e:
             bad("scope_value_identity", "scope keyed on p=%d: %s: %s"
                 % (v, type(e).__name__, e), value=v)
+    # (d) masks of partially specified keys in a hierarchy two levels deep:
+    # a field is present only when every field its scope names has the
+    # required value
+    for tags in (None, "t"):
+        acc.evaluations += 1
+        acc.nontrivial += 1
+        try:
+            bf = BitField(16)
+            bf.add_field("kind", length=1, tags=tags)
+            bf(kind=0).add_field("sub", length=1, tags=tags)
+            bf(kind=0, sub=0).add_field("g0", length=2, tags=tags)
+            bf(kind=0, sub=1).add_field("g1", length=3, tags=tags)
+            bf(kind=1).add_field("y", length=4, tags=tags)
+            bf(kind=1, y=3).add_field("z", length=2, tags=tags)
+            bf.assign_fields()
+            full0 = bf(kind=0, sub=0)
+            full1 = bf(kind=0, sub=1)
+            fy = bf(kind=1, y=3)
+            m = dict(kind=bf.get_mask(field="kind"),
+                     sub=full0.get_mask(field="sub"),
+                     g0=full0.get_mask(field="g0"),
+                     g1=full1.get_mask(field="g1"),
+                     y=fy.get_mask(field="y"), z=fy.get_mask(field="z"))
+            checks = [
+                ("bf()", bf, ["kind"]),
+                ("bf(kind=0)", bf(kind=0), ["kind", "sub"]),
+                ("bf(kind=1)", bf(kind=1), ["kind", "y"]),
+                ("bf(kind=0, sub=0)", full0, ["kind", "sub", "g0"]),
+                ("bf(kind=0, sub=1)", full1, ["kind", "sub", "g1"]),
+                ("bf(kind=1, y=3)", fy, ["kind", "y", "z"]),
+                ("bf(kind=1, y=2)", bf(kind=1, y=2), ["kind", "y"])]
+            for label, inst, present in checks:
+                want = 0
+                for f_ in present:
+                    want |= m[f_]
+                for tg in ((None,) if tags is None else (None, tags)):
+                    got = inst.get_mask(tag=tg)
+                    if got != want:
+                        bad("partial_key_mask", "%s.get_mask(tag=%r) = %#x, "
+                            "the fields present (%s) occupy %#x"
+                            % (label, tg, got, ", ".join(present), want),
+                            label=label, tag=tg)
+        except Exception as e:
+            bad("extra_exception", "partial-key scenario raised %s: %s"
+                % (type(e).__name__, e), tag=tags)
     acc.sample(dict(fam="extra"))
 
 
